@@ -136,6 +136,77 @@ def run(tier, seed, replay=None):
                     budget[lang] -= 1
                     model_cases.append((f"enc_scan (scan_file (lang_code {li}) {toklit})", got,
                                         {"language": lang, "generator_seed": sd, "marked": marked}))
+    # ---- relational pass: the same text with and without a marker on one unrelated function, on programs that also
+    #      hold non-canonical filler right above function headers (one-line definitions, declarations)
+    rng = chk.rng
+    fillers = {"Python": ["def stub{i}(x): return x", "def stub{i}(): ...", "x{i} = 1"],
+               "default": ["int decl{i}(int x);", "x{i} = 1;", "call{i}(1);"]}
+    for lang in LC.LANGS:
+        for i in range(60 if tier == "quick" else 1500):
+            p = progen.generate(seed * 7001 + i, lang, {"comments": i % 2 == 0, "long_bodies": False})
+            lines = p["text"].split("\n")
+            tops = sorted({e["start"][0] for e in p["expected"] if e["start"][1] == 1}, reverse=True)
+            for ln in tops:                                     # filler right above top-level headers
+                if rng.random() < 0.6 and (ln < 2 or not lines[ln - 2].rstrip().endswith("\\")):
+                    lines.insert(ln - 1, rng.choice(fillers.get(lang, fillers["default"])).format(i=ln))
+            t0 = "\n".join(lines)
+            base = LC.guarded(lambda: LC.impl_scan(lang, t0))
+            if base[0] != 0 or not base[1]:
+                continue
+            spans = [(tuple(m[1]), tuple(m[2])) for m in base[1]]
+            unrelated = [k for k, (a, b) in enumerate(spans)
+                         if not any(j != k and ((c <= a and b <= d) or (a <= c and d <= b)) for j, (c, d) in enumerate(spans))]
+            toks = LC.impl_lex(lang, t0)
+            cands = []
+            for k in unrelated:
+                nm, (sl, sc) = base[1][k][0], base[1][k][1]
+                on_line = [t for t in toks if t.location.line == sl]
+                starts_of_others = [m[1][0] for j, m in enumerate(base[1]) if j != k]
+                # the name token is on the start line, no other function starts there, and the line end is not inside a token
+                if any(t.value == nm and t.is_name() for t in on_line) and sl not in starts_of_others \
+                        and not any("\n" in t.value and t.location.line <= sl < t.location.line + t.value.count("\n") for t in toks) \
+                        and not t0.split("\n")[sl - 1].rstrip().endswith("\\"):
+                    cands.append(k)
+            if not cands:
+                continue
+            k = rng.choice(cands)
+            sl = base[1][k][1][0]
+            l1 = t0.split("\n")
+            mk = marker(rng, lang).split("\n")[0]
+            if mk.startswith("/*") and "*/" not in mk:
+                mk += " */"
+            l1[sl - 1] = l1[sl - 1] + "  " + mk
+            t1 = "\n".join(l1)
+            got = LC.guarded(lambda: LC.impl_scan(lang, t1))
+            chk.evaluations += 1
+            chk.count("relational: marker added to one function of a program with filler")
+            want = [m for j, m in enumerate(base[1]) if j != k]
+            if got[0] != 0 or got[1] != want:
+                chk.violation({"language": lang, "text": t1, "marked": base[1][k][0]},
+                              f"{lang}: adding a marker to {base[1][k][0]} (line {sl}) changed more than that function: "
+                              f"{[m[0] for m in (got[1] if got[0] == 0 else [])]} vs {[m[0] for m in want]}"
+                              + ("" if got[0] else "".join(f"; {a[0]}: {b[1:]} -> {a[1:]}" for a, b in zip(got[1], want) if a != b)[:200]))
+            else:
+                chk.nontrivial.add(("rel", lang, i))
+    # ---- the marked function is the last thing in the file, on one line, with and without a final line break
+    for lang in LC.LANGS:
+        if lang == "Python":
+            continue
+        kw = "function " if lang in ("JavaScript", "TypeScript") else "void "
+        for mk in ["// nocl", "//nocl", "// NOCL: generated", "/* nocl */", "/*NOCL*/"]:
+            for tail in ["", "\n", "\n\n", "  ", "\r\n"]:
+                for pre in ["", kw + "first() {\n  x = 1;\n}\n"]:
+                    text = pre + kw + "last() { x = 1; } " + mk + tail
+                    got = LC.guarded(lambda: LC.impl_scan(lang, text))
+                    want = LC.guarded(lambda: LC.impl_scan(lang, pre)) if pre else [0, []]
+                    chk.evaluations += 1
+                    chk.count("marker on the last line of the file")
+                    if got != want:
+                        chk.violation({"language": lang, "text": text},
+                                      f"{lang}: marker {mk!r} on the last line ({'no ' if not tail else ''}final line break): "
+                                      f"reported {[m[0] for m in got[1]] if got[0] == 0 else got}, expected {[m[0] for m in want[1]]}")
+                    else:
+                        chk.nontrivial.add(("last", lang, mk, tail, pre))
     # marker text: is_nocl_text vs the implementation's predicate on comment texts
     from codelimit.common.Location import Location
     from codelimit.common.Token import Token
